@@ -897,6 +897,83 @@ func rawProbe(line string) (string, string) {
 	return opLine, status
 }
 
+// inputs for the precompiles whose Run body is modelled (0x01, 0x04, 0x05, 0x09)
+func (g *gen) prunInput(addr int) []byte {
+	r := g.r
+	switch addr {
+	case 1:
+		in := make([]byte, 128)
+		copy(in[0:32], r.Bytes(32))
+		in[63] = byte(27 + r.Intn(2))
+		copy(in[64:96], r.Bytes(32))
+		copy(in[96:128], r.Bytes(32))
+		switch r.Intn(12) {
+		case 0:
+			in[63] = byte(r.Intn(256)) // v out of range / wrapping
+		case 1:
+			in[32+r.Intn(31)] = 1 // non-zero padding of v
+		case 2:
+			for i := 64; i < 96; i++ { // r = 0
+				in[i] = 0
+			}
+		case 3:
+			for i := 96; i < 128; i++ { // s >= N
+				in[i] = 0xff
+			}
+		case 4:
+			in = in[:r.Intn(128)] // truncated (right-padded by Run)
+		case 5:
+			in = append(in, r.Bytes(1+r.Intn(40))...) // trailing bytes ignored
+		case 6:
+			in[64] = 0 // leading zero byte in r
+		case 7: // a real signature
+			key := r.Bytes(32)
+			if prv, err := crypto.ToECDSA(key); err == nil {
+				if sig, err := crypto.Sign(in[0:32], prv); err == nil {
+					copy(in[64:128], sig[0:64])
+					in[63] = 27 + sig[64]
+				}
+			}
+		}
+		return in
+	case 4:
+		return r.Bytes(r.Intn(100))
+	case 5:
+		b, e, m := r.Intn(40), r.Intn(40), r.Intn(40)
+		if r.Chance(1, 6) {
+			b, e, m = r.Pick(0, 1, 32, 33, 64, 65, 200), r.Pick(0, 1, 31, 32, 33, 100), r.Pick(0, 1, 32, 64, 65, 300)
+		}
+		in := make([]byte, 96)
+		in[31], in[63], in[95] = byte(b), byte(e), byte(m)
+		in[30], in[62], in[94] = byte(b>>8), byte(e>>8), byte(m>>8)
+		payload := r.Bytes(r.Intn(b + e + m + 8))
+		if r.Chance(1, 8) { // modulus zero
+			payload = make([]byte, b+e+m)
+			copy(payload, r.Bytes(b+e))
+		}
+		if r.Chance(1, 10) {
+			in[r.Intn(24)] = byte(r.Intn(3)) // garbage in the high bytes of a length word
+		}
+		return append(in, payload...)
+	default: // 9
+		in := r.Bytes(213)
+		in[0], in[1] = 0, 0
+		in[2] = byte(r.Intn(4))
+		in[212] = byte(r.Intn(2))
+		switch r.Intn(10) {
+		case 0:
+			in[212] = byte(2 + r.Intn(250))
+		case 1:
+			in = in[:212]
+		case 2:
+			in = append(in, 0)
+		case 3:
+			in[2], in[3] = 0, byte(r.Intn(13))
+		}
+		return in
+	}
+}
+
 // length words for the modexp header
 func lenWord(r *hx.Rng) *big.Int {
 	switch r.Intn(16) {
@@ -1495,6 +1572,24 @@ func main() {
 				}
 			}
 			return strconv.FormatUint(gas, 10) + " " + cls
+		})
+	}
+	// bodies of the modelled precompiles: the real Run against the Lean definition
+	nrun := hx.ArgInt(a, "prun", 800)
+	for i := 0; i < nrun; i++ {
+		addr := []int{1, 1, 4, 5, 5, 9, 9}[r.Intn(7)]
+		in := g.prunInput(addr)
+		p := rawPrecompiles[precompileAddr(addr)]
+		op := fmt.Sprintf("prun %d %s", addr, hexTok(in))
+		out.Do(op, func() string {
+			if p.RequiredGas(in) > 3000000 {
+				return "unmodelled"
+			}
+			o, err := p.Run(in)
+			if err != nil {
+				return "err"
+			}
+			return "ok " + hexTok(o)
 		})
 	}
 	kinds := []string{}
